@@ -22,7 +22,7 @@ LEVEL = 'model_checking'
 
 MATH_ATOMS = ['$', 'a', '{', '}', ' ', '\\(', '\\)', '\\[', '\\]']
 MATH_ATOMS_D = MATH_ATOMS + ['\\text', '\\ensuremath', '\\begin{equation}', '\\end{equation}', '\\textbf', '\\frac']
-MATH_ATOMS_K = MATH_ATOMS + ['\\t', '\\q', '\\begin{q}', '\\end{q}', '\\m', '\\begin{e}', '\\end{e}', '\\A', '\\S', '[', ']']
+MATH_ATOMS_K = MATH_ATOMS + ['\\t', '\\q', '\\begin{q}', '\\end{q}', '\\m', '\\begin{e}', '\\end{e}', '\\A', '\\S', '[', ']', '\\X', '%']
 
 
 class ModesConsumer(Consumer):
